@@ -6,7 +6,7 @@
 cd /verif
 out=seeded/MATRIX.txt
 one() {
-  declare -A OVERRIDE=([C01-c]="C05 C02" [C06-d]="C16" [C10-d]="C02" [C09-b]="C09 C15" [C05-f]="C09" [C01-f]="C03" [C10-f]="C12" [C16-f]="C17" [C10-h]="C02 C05" [C06-h]="C16" [C01-i]="C04")
+  declare -A OVERRIDE=([C01-c]="C05 C02" [C06-d]="C16" [C10-d]="C02" [C09-b]="C09 C15" [C05-f]="C09" [C01-f]="C03" [C10-f]="C12" [C16-f]="C17" [C10-h]="C02 C05" [C06-h]="C16" [C01-i]="C04" [C01-j]="C04" [C02-j]="C05" [C10-j]="C20" [C18-j]="C18 C01")
   id=$1
   d=/verif/seeded/$id
   prop=${id%%-*}
